@@ -7,7 +7,8 @@ from vlib import glist
 FX = "false" if os.environ.get("VERIF_ASYNC_PINNED") else "true"
 PRE = "From Coq Require Import List String.\nFrom Syc Require Import Async.Suspense.\nImport ListNotations.\n"
 
-# node = ("sus", id, [nodes]) | ("scope", id, [nodes]) | ("task", t, n) | ("spawn", t, n)
+# node = ("sus", id, [nodes]) | ("scope", id, [nodes]) | ("task", t, n) | ("spawn", t, n) | ("res", t, n)
+# ("res", t, n): a Resource read while loading under the boundary; in the LTS it is a task (same counter, same cancellation)
 # step = ("go", t) | ("dispose", id)
 
 
@@ -34,7 +35,7 @@ def cq_node(n):
         return "ASus %d %s" % (n[1], cq_nodes(n[2]))
     if n[0] == "scope":
         return "AScope %d %s" % (n[1], cq_nodes(n[2]))
-    return "%s %d %d" % ("ATask" if n[0] == "task" else "ASpawn", n[1], n[2])
+    return "%s %d %d" % ("ASpawn" if n[0] == "spawn" else "ATask", n[1], n[2])
 
 
 def cq_steps(ss):
@@ -74,7 +75,7 @@ def info(prog):
                 scope_parent[n[1]] = owners[-1] if owners else None
                 walk(n[2], owners + [n[1]], sus)
             else:
-                tasks[n[1]] = (n[2], list(owners), sus if n[0] == "task" else None)
+                tasks[n[1]] = (n[2], list(owners), sus if n[0] in ("task", "res") else None)
 
     walk(prog, [], None)
     return tasks, sus_parent, scope_parent
